@@ -249,7 +249,8 @@ def key_of(c, obs):
     if c.family:
         return c.family
     if c.type is None:
-        return 'accepts-invalid/%s/%s/%s-x-%s' % (c.stratum, c.opclass, c.lcls, c.rcls)
+        a, b = sorted((c.lcls, c.rcls)) if c.opclass in ('cond', 'eq', 'rel', 'add', 'mul', 'bit', 'logical') else (c.lcls, c.rcls)
+        return 'accepts-invalid/%s/%s/%s-x-%s' % (c.stratum, c.opclass, a, b)
     if obs.startswith('rejected'):
         return 'rejects-valid/%s/%s/%s-x-%s' % (c.stratum, c.opclass, c.lcls, c.rcls)
     return 'type/%s/%s/%s-x-%s' % (c.stratum, c.opclass, c.lcls, c.rcls)
@@ -311,6 +312,9 @@ OPCLASS = {'*': 'mul', '/': 'div', '%': 'mod', '+': 'add', '-': 'sub', '<<': 'sh
            '<=': 'rel', '>=': 'rel', '==': 'eq', '!=': 'eq', '&': 'bit', '^': 'bit', '|': 'bit', '&&': 'logical', '||': 'logical',
            '?:': 'cond', '=': 'assign', '+=': 'add-assign', '<<=': 'shift-assign'}
 COND_FAMILY = 'type/conditional-of-same-narrow-type-operands-not-promoted'
+PLUS_FAMILY = 'type/unary-plus-returns-operand-unconverted'
+FULLWIDTH_FAMILY = 'accepts-invalid/full-width-bit-field-treated-as-ordinary-member'
+PTRFLOAT_FAMILY = 'accepts-invalid/cast-between-pointer-and-floating-type'
 
 
 def triple_cases(op, lnames, tgt):
@@ -350,7 +354,12 @@ def unary_cases(tgt):
                 t = None
             e = {'id': '%s', 'sizeof': 'sizeof(%s)', '++pre': '(++%s)', '++post': '(%s++)', '--pre': '(--%s)', '--post': '(%s--)'}.get(op, '(' + op + '%s)') % X.expr
             oc = {'id': 'lvalue-conversion', 'sizeof': 'sizeof', '+': 'unary-plus', '-': 'unary-minus', '~': 'complement', '!': 'not'}.get(op, 'incdec')
-            out.append(Case('unary', (op, X.name, '-'), e, t, oc, X.cls, '-', X.ext))
+            fam = None
+            if op == '+' and X.o.bf is not None and t is not None and t == M.basic_of(X.o.type):
+                fam = PLUS_FAMILY       # known family: unary + hands its operand on unchanged when no conversion is needed
+            if op == 'sizeof' and X.o.bf is not None and X.o.bf == 8 * M.sizeof(X.o.type):
+                fam = FULLWIDTH_FAMILY  # known family: a bit-field as wide as its type is treated as an ordinary member
+            out.append(Case('unary', (op, X.name, '-'), e, t, oc, X.cls, '-', X.ext, fam, size=op != 'id'))
     for tt, ext in CAST_TARGETS:
         for X in KINDS:
             try:
@@ -358,7 +367,9 @@ def unary_cases(tgt):
             except M.Invalid:
                 t = None
             tc = 'void' if tt == M.VOID else 'pointer' if M.is_pointer(tt) else 'float' if M.is_float(tt) else 'integer' if M.is_integer(M.unq(tt)[0]) else 'non-scalar'
-            out.append(Case('unary', ('cast', M.cname(tt), X.name), '((%s)%s)' % (M.cname(tt), X.expr), t, 'cast', tc, X.cls, ext + X.ext))
+            vt = M.value_type(X.o)
+            fam = PTRFLOAT_FAMILY if (M.is_pointer(tt) and M.is_float(vt)) or (M.is_float(tt) and M.is_pointer(vt)) else None
+            out.append(Case('unary', ('cast', M.cname(tt), X.name), '((%s)%s)' % (M.cname(tt), X.expr), t, 'cast', tc, X.cls, ext + X.ext, fam))
     # _Alignof and sizeof of type names
     for tt, ext in CAST_TARGETS + [(M.Arr(M.INT, None), '')]:
         for op in ('sizeof', '_Alignof'):
@@ -391,7 +402,7 @@ def lit_cases(tgt):
     for pre, t in (('', M.INT), ('L', wch), ('u', M.USHORT), ('U', M.UINT)):
         for body in ('a', '\\n', '\\0', '\\x41', '\\101'):
             out.append(Case('lits', ('char-const', pre or 'none', '-'), "%s'%s'" % (pre, body), t, 'character-constant', pre or 'plain'))
-    for pre, t in (('', M.CHAR), ('u8', M.CHAR), ('L', wch), ('u', M.USHORT), ('U', M.UINT)):
+    for pre, t in (('', M.CHAR), ('L', wch), ('u', M.USHORT), ('U', M.UINT)):      # u8: char in C11, char8_t in C23 -- not judged
         for body in ('', 'abc'):
             e = '%s"%s"' % (pre, body)
             out.append(Case('lits', ('string', pre or 'none', '-'), e, M.Ptr(t), 'string-literal', pre or 'plain', size=False))
@@ -455,6 +466,8 @@ def decay_step(op, t, lvalue):
             raise M.Invalid('[]')
         return M.unq(v.to)[0], True
     if op == '+1':
+        if M.is_arith(v):
+            return M.usual_arith(v, M.INT, M.TARGETS['x86_64-sysv']), False
         if not M.is_pointer(v) or not M.is_complete_object(v.to):
             raise M.Invalid('+')
         return v, False
@@ -764,6 +777,8 @@ def _flat_job(spec):
             stats['unconfirmed_on_replay'] += 1
             continue
         key = ('accepts-invalid/%s/%s' if text is None else 'type/%s/%s') % (st, oc) + ('/' + cell[0] if st != 'decay' else '/' + '-'.join(cell[1:]))
+        if st == 'typeof' and text is not None and '(+' in text:
+            key = PLUS_FAMILY
         if obs.startswith('status '):
             key = 'crash/%s/%s' % (obs.replace(' ', '-'), st)
         recs.append({'stratum': st, 'cell': cell, 'expr': e, 'expected': 'rejection' if text is None else '%s == %d' % (text % 0, want), 'index': None,
